@@ -84,6 +84,9 @@ func Any(v any) (res ipld.Node, err error) {
 		}
 		return basicnode.NewInt(val), nil
 	case uint:
+		if uint64(val) > uint64(limits.MaxInt53) {
+			return nil, fmt.Errorf("unsigned integer value %d exceeds safe integer bounds", val)
+		}
 		return basicnode.NewInt(int64(val)), nil
 	case uint8:
 		return basicnode.NewInt(int64(val)), nil
